@@ -210,6 +210,20 @@ func RootOfAddr(v ssa.Value) ssa.Value {
 					v = x.X
 					continue
 				}
+				// reload of a parameter that lives in a cell because a closure captures it (spilled receiver)
+				if al, ok := x.X.(*ssa.Alloc); ok && al.Referrers() != nil {
+					var src ssa.Value
+					n := 0
+					for _, ref := range *al.Referrers() {
+						if st, ok := ref.(*ssa.Store); ok && st.Addr == ssa.Value(al) {
+							n++
+							src = st.Val
+						}
+					}
+					if p, isParam := src.(*ssa.Parameter); isParam && n == 1 {
+						return p
+					}
+				}
 			}
 			return v
 		case *ssa.IndexAddr:
